@@ -31,6 +31,8 @@ use std::{
 
 mod id;
 pub(crate) use self::id::NodeId;
+#[cfg(cormacrelf_incremental_rs_verif)]
+mod verif;
 
 #[repr(C)]
 pub(crate) struct Node {
